@@ -546,7 +546,7 @@ Lemma map_rename_eq a b l :
 Proof. reflexivity. Qed.
 
 Lemma exec_frame d s d' n :
-  d_fk d = false -> exec d s = EOk d' -> ~ In n (touches s) ->
+  d_fk d = false \/ is_drop s = false -> exec d s = EOk d' -> ~ In n (touches s) ->
   find_et n (d_tables d') = find_et n (d_tables d).
 Proof.
   intros F H Hn.
@@ -557,7 +557,8 @@ Proof.
   - destruct (find_et (td_name t) (d_tables d)) eqn:E; [discriminate|]. inversion H; subst; simpl.
     rewrite find_et_app. simpl. destruct (find_et n (d_tables d)); [reflexivity|].
     destruct (str_eqb (td_name t) n) eqn:E1; [|reflexivity]. seq. exfalso. apply (Hm (td_name t)); simpl; auto.
-  - destruct (find_et n0 (d_tables d)); [|discriminate]. rewrite F in H. inversion H; subst; simpl.
+  - destruct F as [F|F]; [|discriminate].
+    destruct (find_et n0 (d_tables d)); [|discriminate]. rewrite F in H. inversion H; subst; simpl.
     apply find_et_remove_other. apply Hm; simpl; auto.
   - destruct (find_et a (d_tables d)); [|discriminate]. destruct (find_et b (d_tables d)); [discriminate|].
     inversion H; subst; simpl. rewrite map_rename_eq. apply find_et_rename_other; apply Hm; simpl; auto.
@@ -576,11 +577,12 @@ Proof.
   - inversion H; subst; reflexivity.
 Qed.
 
-(** a statement list without pragma, enforcement off at the start *)
+(** a statement list without pragma; enforcement off at the start, or no DROP TABLE in it *)
 Lemma exec_all_frame l : forall d d' n,
-  d_fk d = false -> forallb (fun s => negb (is_pragma s)) l = true ->
+  d_fk d = false \/ forallb (fun s => negb (is_drop s)) l = true ->
+  forallb (fun s => negb (is_pragma s)) l = true ->
   exec_all d l = EOk d' -> (forall s, In s l -> ~ In n (touches s)) ->
-  find_et n (d_tables d') = find_et n (d_tables d) /\ d_fk d' = false /\ d_intx d' = d_intx d.
+  find_et n (d_tables d') = find_et n (d_tables d) /\ d_fk d' = d_fk d /\ d_intx d' = d_intx d.
 Proof.
   induction l as [|s l IH]; intros d d' n F NP H Hn; simpl in *.
   - inversion H; subst; auto.
@@ -588,9 +590,11 @@ Proof.
     destruct (exec d s) as [d1|e] eqn:E; [|discriminate].
     assert (is_pragma s = false) as NPs by (destruct (is_pragma s); [discriminate|reflexivity]).
     destruct (exec_flags _ _ _ NPs E) as [F1 I1].
-    destruct (IH d1 d' n) as [A [B C]]; auto; try congruence.
-    rewrite A, C. split; [|split]; auto; try congruence.
-    eapply exec_frame; eauto.
+    destruct (IH d1 d' n) as [A [B C]]; auto.
+    { destruct F as [F|F]; [left; congruence|right]. apply andb_true_iff in F. tauto. }
+    rewrite A, B, C. split; [|split]; auto.
+    eapply exec_frame; eauto. destruct F as [F|F]; [left; exact F|right].
+    apply andb_true_iff in F. destruct F as [F _]. destruct (is_drop s); [discriminate|reflexivity].
 Qed.
 
 (** *** inversion of single statements *)
@@ -862,6 +866,290 @@ Proof.
     + (* RenameIndex *)
       cbn [app RowsModel.exec_all] in H. cbn [RowsModel.exec] in H.
       destruct (IH _ _ _ _ eq_refl FT H) as [tnew [FN R]]. exists tnew. split; [exact FN|exact R].
+Qed.
+
+(** *** whole plans *)
+Definition touched (c : schange) : list str :=
+  match c with
+  | AddTable t | DropTable t => [td_name t]
+  | ModifyTable t _ => [td_name t; new_prefix ++ td_name t]
+  | RenameTable a b => [a; b]
+  | UnsupportedChange => []
+  end.
+
+Lemma alterTable_touches n cs l :
+  alterTable n cs = POk l -> forall s, In s l -> forall m, In m (touches s) -> m = n.
+Proof.
+  revert l; induction cs as [|c cs IH]; intros l A s Hs m Hm; simpl in A.
+  - inversion A; subst. contradiction.
+  - destruct c as [c0|x|x k|a b|i|i|a b|tg]; try discriminate;
+      destruct (alterTable n cs) as [l'|e]; try discriminate; inversion A; subst l; clear A;
+      simpl in Hs;
+      repeat (destruct Hs as [Hs|Hs]; [subst s; simpl in Hm; intuition|]); eauto.
+Qed.
+
+Lemma addIndexes_touches t idx s : In s (addIndexes t idx) -> touches s = [].
+Proof. unfold addIndexes. rewrite in_map_iff. intros [i [<- _]]. reflexivity. Qed.
+
+Lemma seg_touches c l b :
+  seg c = POk (l, b) -> forall s, In s l -> forall m, In m (touches s) -> In m (touched c).
+Proof.
+  destruct c as [t|t|t cs|x y|].
+  - cbn [seg]. intros H; inversion H; subst. intros s [Hs|Hs] m Hm.
+    + subst s. exact Hm.
+    + rewrite (addIndexes_touches _ _ _ Hs) in Hm. contradiction.
+  - cbn [seg]. intros H; inversion H; subst. intros s [Hs|[]] m Hm. subst s. exact Hm.
+  - rewrite seg_modify. destruct (alterable cs).
+    + destruct (alterTable _ cs) as [l0|e] eqn:E; [|discriminate]. intros H; inversion H; subst.
+      intros s Hs m Hm. rewrite (alterTable_touches _ _ _ E s Hs m Hm). simpl; auto.
+    + destruct (copyRows _ _ cs) as [cp|e] eqn:E; [|discriminate]. intros H; inversion H; subst. clear H.
+      apply copyRows_spec in E. cbn [set_td_idx set_td_name td_cols td_name] in E.
+      intros s Hs m Hm. cbn [addTable set_td_idx set_td_name td_idx td_name addIndexes map app] in Hs.
+      destruct Hs as [Hs|Hs]; [subst s; simpl in Hm; simpl; tauto|].
+      apply in_app_or in Hs. destruct Hs as [Hs|Hs].
+      * subst cp. destruct (pairs cs (td_cols t)); [contradiction|]. destruct Hs as [Hs|[]]. subst s.
+        simpl in Hm. simpl. tauto.
+      * destruct Hs as [Hs|[Hs|Hs]]; try (subst s; simpl in Hm; simpl; tauto).
+        rewrite (addIndexes_touches _ _ _ Hs) in Hm. contradiction.
+  - cbn [seg]. intros H; inversion H; subst. intros s [Hs|[]] m Hm. subst s. exact Hm.
+  - discriminate.
+Qed.
+
+(** the exact effect of the plan on the rows of a modified table *)
+Definition kept_rows (t : tdef) (m : list tchange) (told tnew : etable) : Prop :=
+  if alterable m then rows_ext (renamed_cols m) (et_rows told) (et_rows tnew)
+  else
+    et_cols tnew = td_cols t /\
+    match pairs m (td_cols t) with
+    | [] => et_rows tnew = []
+    | _ =>
+      length (et_rows tnew) = length (et_rows told) /\
+      forall i r r', nth_error (et_rows told) i = Some r -> nth_error (et_rows tnew) i = Some r' ->
+        forall c, In c (td_cols t) -> rc_gen c = false ->
+          exists v', get r' (rc_name c) = Some v' /\
+                     (rc_notnull c = true -> v' <> VNull) /\
+                     match kept m c with
+                     | Some x => eval_expr told r (rc_type c) x = EOk v'
+                     | None => v' = rc_defval c
+                     end
+    end.
+
+Lemma seg_modify_effect t m l b d d' told :
+  seg (ModifyTable t m) = POk (l, b) ->
+  d_fk d = false \/ b = false ->
+  NoDup (map rc_name (td_cols t)) ->
+  find_et (td_name t) (d_tables d) = Some told ->
+  exec_all d l = EOk d' ->
+  exists tnew, find_et (td_name t) (d_tables d') = Some tnew /\ kept_rows t m told tnew.
+Proof.
+  rewrite seg_modify. unfold kept_rows. destruct (alterable m).
+  - destruct (alterTable _ m) as [l0|e] eqn:E; [|discriminate]. intros H; inversion H; subst. intros _ _ FT X.
+    eapply alter_segment_effect; eauto.
+  - destruct (copyRows _ _ m) as [cp|e] eqn:E; [|discriminate]. intros H; inversion H; subst. clear H.
+    intros [F|F] ND FT X; [|discriminate].
+    destruct (copy_segment_effect d t m cp d' told F E FT X) as [rows' [FN SP]].
+    eexists. split; [exact FN|]. simpl. split; [reflexivity|].
+    destruct (pairs m (td_cols t)) as [|p0 ps0] eqn:PS; [exact SP|].
+    eapply copy_path_rows; eauto.
+Qed.
+
+Lemma segs_cons c cs l b :
+  segs (c :: cs) = POk (l, b) ->
+  exists l0 b0 l1 b1, seg c = POk (l0, b0) /\ segs cs = POk (l1, b1) /\ l = l0 ++ l1 /\ b = b0 || b1.
+Proof.
+  simpl. destruct (seg c) as [[l0 b0]|e]; [|discriminate].
+  destruct (segs cs) as [[l1 b1]|e]; [|discriminate]. intros H; inversion H; subst.
+  exists l0, b0, l1, b1. auto.
+Qed.
+
+Lemma nodup_app_inv {A} (a b : list A) :
+  NoDup (a ++ b) -> NoDup a /\ NoDup b /\ (forall x, In x a -> ~ In x b).
+Proof.
+  induction a as [|x a IH]; simpl; intros H.
+  - repeat split; auto. constructor.
+  - inversion H; subst. destruct (IH H3) as [A1 [A2 A3]]. repeat split; auto.
+    + constructor; auto. intro X. apply H2. apply in_or_app; auto.
+    + intros y [Hy|Hy]; [subst y; intro X; apply H2; apply in_or_app; auto|auto].
+Qed.
+
+Lemma exec_all_flags l : forall d d',
+  forallb (fun s => negb (is_pragma s)) l = true -> exec_all d l = EOk d' ->
+  d_fk d' = d_fk d /\ d_intx d' = d_intx d.
+Proof.
+  induction l as [|s l IH]; intros d d' NP H; simpl in *.
+  - inversion H; subst; auto.
+  - apply andb_true_iff in NP. destruct NP as [NP1 NP2].
+    destruct (exec d s) as [d1|e] eqn:E; [|discriminate].
+    assert (is_pragma s = false) as NPs by (destruct (is_pragma s); [discriminate|reflexivity]).
+    destruct (exec_flags _ _ _ NPs E) as [F1 I1]. destruct (IH _ _ NP2 H) as [A B]. split; congruence.
+Qed.
+
+Lemma plan_general : forall cs l b d d',
+  segs cs = POk (l, b) ->
+  d_fk d = false \/ b = false ->
+  NoDup (flat_map touched cs) ->
+  exec_all d l = EOk d' ->
+  d_fk d' = d_fk d /\ d_intx d' = d_intx d /\
+  (forall n, ~ In n (flat_map touched cs) -> find_et n (d_tables d') = find_et n (d_tables d)) /\
+  (forall t m told, In (ModifyTable t m) cs -> NoDup (map rc_name (td_cols t)) ->
+     find_et (td_name t) (d_tables d) = Some told ->
+     exists tnew, find_et (td_name t) (d_tables d') = Some tnew /\ kept_rows t m told tnew).
+Proof.
+  induction cs as [|c cs IH]; intros l b d d' S F ND X.
+  - simpl in S. inversion S; subst. simpl in X. inversion X; subst.
+    repeat split; auto. intros t m told [].
+  - apply segs_cons in S. destruct S as [l0 [b0 [l1 [b1 [S0 [S1 [-> ->]]]]]]].
+    rewrite exec_all_app in X. destruct (exec_all d l0) as [d1|] eqn:X0; [|discriminate].
+    simpl in ND. destruct (nodup_app_inv _ _ ND) as [ND0 [ND1 DJ]].
+    assert (d_fk d = false \/ forallb (fun s => negb (is_drop s)) l0 = true) as F0.
+    { destruct F as [F|F]; [left; exact F|right]. apply orb_false_iff in F. destruct F; subst.
+      eapply seg_drop_skip; eauto. }
+    pose proof (seg_no_pragma _ _ _ S0) as NP0.
+    destruct (exec_all_flags _ _ _ NP0 X0) as [FK1 TX1].
+    assert (forall n, ~ In n (touched c) -> find_et n (d_tables d1) = find_et n (d_tables d)) as FR0.
+    { intros n Hn. eapply exec_all_frame; eauto.
+      intros s Hs Hm. apply Hn. eapply seg_touches; eauto. }
+    assert (d_fk d1 = false \/ b1 = false) as F1.
+    { destruct F as [F|F]; [left; congruence|right]. apply orb_false_iff in F. tauto. }
+    destruct (IH _ _ _ _ S1 F1 ND1 X) as [FK2 [TX2 [FR1 EF1]]].
+    split; [congruence|]. split; [congruence|]. split.
+    + intros n Hn. rewrite FR1, FR0; auto; intro Y; apply Hn; apply in_or_app; auto.
+    + intros t m told [Hc|Hc] NDc FT.
+      * subst c. assert (d_fk d = false \/ b0 = false) as Fb.
+        { destruct F as [F|F]; [left; exact F|right]. apply orb_false_iff in F. tauto. }
+        destruct (seg_modify_effect _ _ _ _ _ _ _ S0 Fb NDc FT X0) as [tnew [FN K]].
+        exists tnew. split; [|exact K]. rewrite FR1; [exact FN|].
+        apply DJ. simpl. auto.
+      * assert (In (td_name t) (flat_map touched cs)) as Hin.
+        { apply in_flat_map. exists (ModifyTable t m). split; [exact Hc|simpl; auto]. }
+        apply EF1; auto. rewrite FR0; [exact FT|]. intro Y. exact (DJ _ Y Hin).
+Qed.
+
+(** *** the whole plan with its bracket *)
+Definition pragma_effective (d : db) : Prop := d_fk d = false \/ d_intx d = false.
+
+Lemma apply_general cs p d d' :
+  PlanChanges cs = POk p -> pragma_effective d -> NoDup (flat_map touched cs) ->
+  exec_all d p = EOk d' ->
+  (forall n, ~ In n (flat_map touched cs) -> find_et n (d_tables d') = find_et n (d_tables d)) /\
+  (forall t m told, In (ModifyTable t m) cs -> NoDup (map rc_name (td_cols t)) ->
+     find_et (td_name t) (d_tables d) = Some told ->
+     exists tnew, find_et (td_name t) (d_tables d') = Some tnew /\ kept_rows t m told tnew).
+Proof.
+  rewrite PlanChanges_segs. destruct (segs cs) as [[l b]|e] eqn:S; [|discriminate].
+  destruct b; intros P PE ND X; inversion P; subst p; clear P.
+  - cbn [RowsModel.exec_all] in X.
+    destruct (exec d (SPragmaFK false)) as [d0|] eqn:E0; [|discriminate].
+    assert (d_fk d0 = false /\ d_tables d0 = d_tables d) as [F0 T0].
+    { unfold RowsModel.exec in E0. destruct (d_intx d) eqn:I; inversion E0; subst; simpl; auto.
+      destruct PE as [PE|PE]; [auto|congruence]. }
+    rewrite exec_all_app in X. destruct (exec_all d0 l) as [d1|] eqn:X1; [|discriminate].
+    cbn [RowsModel.exec_all] in X. destruct (exec d1 (SPragmaFK true)) as [d2|] eqn:E2; [|discriminate].
+    inversion X; subst d2; clear X.
+    assert (d_tables d' = d_tables d1) as T2.
+    { unfold RowsModel.exec in E2. destruct (d_intx d1); inversion E2; subst; reflexivity. }
+    destruct (plan_general cs l true d0 d1 S (or_introl F0) ND X1) as [_ [_ [FR EF]]].
+    rewrite T2. rewrite <- T0. split; [exact FR|exact EF].
+  - destruct (plan_general cs l false d d' S (or_intror eq_refl) ND X) as [_ [_ [FR EF]]]. split; assumption.
+Qed.
+
+(** *** the values, column by column *)
+Definition ifnull_wrapped (m : list tchange) (c : rcol) : bool :=
+  match kept m c with Some (EIfNull _ _) => true | _ => false end.
+
+Lemma find_change_in col cs : forall acc ch,
+  find_change col cs acc = POk (Some ch) -> acc = Some ch \/ In ch cs.
+Proof.
+  induction cs as [|c cs IH]; intros acc ch H; simpl in H.
+  - inversion H; auto.
+  - assert (forall acc', find_change col cs acc' = POk (Some ch) -> acc' = Some c \/ acc' = acc ->
+                         acc = Some ch \/ In ch (c :: cs)) as K.
+    { intros acc' H' [Ha|Ha]; subst acc'; apply IH in H'; destruct H' as [H'|H']; simpl; auto.
+      inversion H'; subst; auto. }
+    destruct c as [c0|n|n k|a b|i|i|a b|tg];
+      try (eapply K; [exact H|auto]).
+    + destruct (str_eqb (rc_name c0) col); [destruct acc; [discriminate|]|]; eapply K; eauto.
+    + destruct (str_eqb n col); [discriminate|]. eapply K; eauto.
+    + destruct (str_eqb n col); [destruct acc; [discriminate|]|]; eapply K; eauto.
+    + destruct (str_eqb b col); [destruct acc; [discriminate|]|]; eapply K; eauto.
+Qed.
+
+Lemma alterable_no_modify m n k : alterable m = true -> ~ In (ModifyColumn n k) m.
+Proof.
+  induction m as [|c m IH]; simpl; intros A H; [exact H|].
+  destruct H as [H|H].
+  - subst c. discriminate.
+  - destruct c as [c0|x|x y|a b|i|i|a b|tg]; try discriminate; try (now apply IH).
+    destruct (rc_hasidx c0 || rc_hasfk c0); [discriminate|].
+    destruct (rc_dkind c0) as [|[]|]; try discriminate;
+      (destruct (rc_gen c0 && rc_stored c0); [discriminate|now apply IH]).
+Qed.
+
+Lemma alterable_no_wrap m c : alterable m = true -> ifnull_wrapped m c = false.
+Proof.
+  intros A. unfold ifnull_wrapped, kept. destruct (rc_gen c); [reflexivity|].
+  destruct (find_change (rc_name c) m None) as [[ch|]|e] eqn:E; try reflexivity.
+  destruct ch; try reflexivity.
+  apply find_change_in in E. destruct E as [E|E]; [discriminate|].
+  exfalso. eapply alterable_no_modify; eauto.
+Qed.
+
+Lemma kept_not_renamed m c x :
+  kept m c = Some x -> ~ In (rc_name c) (renamed_cols m) ->
+  x = ECol (rc_name c) \/ (x = EIfNull (rc_name c) (rc_defval c) /\ rc_notnull c = true /\ has_default c = true).
+Proof.
+  unfold kept. destruct (rc_gen c); [discriminate|].
+  destruct (find_change (rc_name c) m None) as [[ch|]|e] eqn:E; try discriminate.
+  - destruct ch; try discriminate.
+    + intros H _. inversion H; subst.
+      destruct (rc_notnull c); [|auto]. destruct (has_default c); [|auto].
+      destruct (change_is _ _); simpl; auto.
+    + intros H NR. exfalso. apply NR.
+      pose proof (find_change_rename _ _ _ _ _ E) as [R|R]; [discriminate|]. subst to.
+      apply find_change_in in E. destruct E as [E|E]; [discriminate|].
+      unfold renamed_cols. apply in_flat_map. eexists. split; [exact E|]. simpl; auto.
+  - intros H _. inversion H; auto.
+Qed.
+
+Lemma Forall2_nth {A B} (R : A -> B -> Prop) a b :
+  Forall2 R a b -> forall i x y, nth_error a i = Some x -> nth_error b i = Some y -> R x y.
+Proof.
+  induction 1; intros [|i] u w Hu Hw; simpl in *; try discriminate.
+  - inversion Hu; inversion Hw; subst; assumption.
+  - eauto.
+Qed.
+
+Lemma Forall2_len {A B} (R : A -> B -> Prop) a b : Forall2 R a b -> length a = length b.
+Proof. induction 1; simpl; congruence. Qed.
+
+Lemma kept_rows_values t m told tnew :
+  kept_rows t m told tnew ->
+  alterable m = true \/ pairs m (td_cols t) <> [] ->
+  length (et_rows tnew) = length (et_rows told) /\
+  forall i r r', nth_error (et_rows told) i = Some r -> nth_error (et_rows tnew) i = Some r' ->
+    forall c cold v, In c (td_cols t) -> rc_gen c = false -> kept m c <> None ->
+      ~ In (rc_name c) (renamed_cols m) ->
+      find_rcol (rc_name c) (et_cols told) = Some cold -> rc_type cold = rc_type c ->
+      get r (rc_name c) = Some v ->
+      get r' (rc_name c) = Some (if ifnull_wrapped m c && is_null v then rc_defval c else v).
+Proof.
+  unfold kept_rows. destruct (alterable m) eqn:A.
+  - intros R _. split; [symmetry; eapply Forall2_len; exact R|].
+    intros i r r' Hr Hr' c cold v Hc G K NR FC TY GV.
+    rewrite alterable_no_wrap by exact A. simpl.
+    exact (Forall2_nth _ _ _ R i r r' Hr Hr' (rc_name c) v NR GV).
+  - intros [_ R] [X|X]; [discriminate|].
+    destruct (pairs m (td_cols t)) as [|p0 ps0]; [congruence|].
+    destruct R as [L S]. split; [exact L|].
+    intros i r r' Hr Hr' c cold v Hc G K NR FC TY GV.
+    destruct (S i r r' Hr Hr' c Hc G) as [v' [G' [_ KV]]].
+    destruct (kept m c) as [x|] eqn:KE; [|congruence].
+    unfold ifnull_wrapped. rewrite KE.
+    destruct (kept_not_renamed _ _ _ KE NR) as [->|[-> _]].
+    + rewrite (eval_expr_same told r (rc_type c) (ECol (rc_name c)) cold v FC TY GV) in KV.
+      inversion KV; subst v'. simpl. exact G'.
+    + rewrite (eval_expr_same told r (rc_type c) (EIfNull (rc_name c) (rc_defval c)) cold v FC TY GV) in KV.
+      inversion KV; subst v'. simpl. exact G'.
 Qed.
 
 End EngineProofs.
